@@ -1251,6 +1251,10 @@ class Var:
         # avoid infinite recursion
         self.auto_transform = False
 
+        # the bijector and the transformed value are computed from the cached
+        # values of the inputs, which are not kept up-to-date outside of a model
+        _update_recursive_inputs(self)
+
         # use default event space bijector if bijector is None
         use_default_bijector = bijector is None
         if use_default_bijector:
@@ -1572,6 +1576,33 @@ class Var:
 
     def __repr__(self) -> str:
         return f'{type(self).__name__}(name="{self.name}")'
+
+
+def _update_recursive_inputs(var: Var) -> None:
+    """Updates the recursive inputs of a variable (inputs first), then the variable."""
+    visited: set[int] = set()
+    ordered: list[Node] = []
+
+    def visit(node: Node) -> None:
+        if id(node) in visited:
+            return
+
+        visited.add(id(node))
+
+        for _input in node.all_input_nodes():
+            visit(_input)
+
+        ordered.append(node)
+
+    for node in var.nodes:
+        visit(node)
+
+    for node in ordered:
+        try:
+            node.update()
+        except Exception:
+            # as for nodes that cannot be updated on initialization
+            pass
 
 
 def _transform_var_with_bijector_instance(var: Var, bijector_inst: jb.Bijector) -> Var:
